@@ -1,7 +1,8 @@
 (* C20 — The delay queue delivers each entry once, in order, at the nearest grid time.
    Only statements, closed by [exact], and Print Assumptions. *)
 From Coq Require Import ZArith QArith List Bool Reals Arith.
-From BS Require Import Base.Arith Model.Queue Proofs.QueueProofs Proofs.QueueHistory Proofs.QueueReal.
+From BS Require Import Base.Arith Base.CyPrelude Model.Queue Proofs.QueueProofs Proofs.QueueHistory Proofs.QueueReal
+                       Gen.QueueGen Proofs.TieQueue.
 Import ListNotations.
 
 (* Refinement of the ring buffer to the "pending at offset" table: any time arithmetic
@@ -99,6 +100,40 @@ Example C20_example :
   end.
 Proof. vm_compute. reflexivity. Qed.
 
+(* ---- Tie to the CURRENT source: the methods of ArrayDelayQueue regenerated from bioscrape/simulator.pyx on this run
+   (Gen/QueueGen.v, tools/tr_queue.py) simulate the hand model step for step, for ANY arithmetic and ANY history of
+   add_reaction / read-and-advance / set_current_time: the abstraction (cells, num_cols, start_index, next_queue_time, dt)
+   of the object the source's methods produce is the state the model reaches, and every delivery vector is the model's.
+   The refinement / exactly-once / in-order / nearest-slot theorems above therefore speak about what the source says now
+   (cells are doubles there: amount monoid (F, 0, +)); an edit of one of the five methods changes the generated term and
+   breaks the corresponding lemma of Proofs/TieQueue.v.  copy / clear_copy / binomial_partition (numpy object construction)
+   are not translated: they stay with the correspondence run. *)
+Theorem C20_source_methods :
+  forall F (A : Arith F) (o : @ArrayDelayQueue_obj F),
+  (forall t, q_abs (gen_ArrayDelayQueue_set_current_time A o t) = q_set_time A (q_abs o) t) /\
+  gen_ArrayDelayQueue_get_next_queue_time A o = q_next_time (q_abs o) /\
+  (forall time r a q', (0 < ArrayDelayQueue_num_cols o)%nat ->
+     q_add A (fadd A) (q_abs o) time r a = Some q' -> q_abs (gen_ArrayDelayQueue_add_reaction A o time r a) = q') /\
+  (forall arr, wf_obj o -> length arr = ArrayDelayQueue_num_reactions o ->
+     gen_ArrayDelayQueue_get_next_reactions A o arr = q_peek (fofZ A 0%Z) (q_abs o)) /\
+  (wf_obj o -> q_abs (gen_ArrayDelayQueue_advance_time A o) = q_advance A (fofZ A 0%Z) (q_abs o)).
+Proof. exact @source_methods. Qed.
+
+Theorem C20_source_history :
+  forall F (A : Arith F) ops (o : @ArrayDelayQueue_obj F) q' ds,
+  wf_obj o -> (0 < ArrayDelayQueue_num_cols o)%nat ->
+  hand_run A (q_abs o) ops = Some (q', ds) ->
+  q_abs (fst (gen_run A o ops)) = q' /\ snd (gen_run A o ops) = ds /\ wf_obj (fst (gen_run A o ops)).
+Proof. exact @tie_history. Qed.
+
+(* Non-vacuity: the source's own methods on a ring of 3 slots (dt = 1/2), through the wrap, with an add in the past and
+   one beyond the horizon: deliveries per read, at exact rationals. *)
+Example C20_source_example :
+  let o := @mk_ArrayDelayQueue Q (1#2)%Q (1#2)%Q 3 2 [[0;0;0];[0;0;0]]%Q 0 in
+  snd (gen_run ArithQ o [GAdd (7#4)%Q 0 1%Q; GAdd (-1)%Q 1 2%Q; GPop; GAdd 100%Q 0 3%Q; GPop; GPop; GAdd (17#8)%Q 1 4%Q; GPop]%nat)
+  = [[0; 2]; [0; 0]; [1; 0]; [3; 4]]%Q.
+Proof. vm_compute. reflexivity. Qed.
+
 Print Assumptions C20_refinement_add.
 Print Assumptions C20_refinement_read.
 Print Assumptions C20_refinement_advance.
@@ -108,3 +143,5 @@ Print Assumptions C20_in_order.
 Print Assumptions C20_nearest.
 Print Assumptions C20_partition.
 Print Assumptions C20_copy.
+Print Assumptions C20_source_methods.
+Print Assumptions C20_source_history.
